@@ -1382,6 +1382,13 @@ class Discharger:
                 tr = type_range(m2.group(1))
                 if r[0] is not None and r[1] is not None and r[0] >= tr[0] and r[1] <= tr[1]:
                     return ("D-range", "value fits %s" % m2.group(1))
+        # first / last / split_first / split_last of a slice known not to be empty
+        if y[0] == "call" and isinstance(y[1], str) and y[1].rsplit("::", 1)[-1] in ("split_last", "split_first", "first", "last", "split_last_mut",
+                                                                                       "split_first_mut", "first_mut", "last_mut") and len(y[2]) == 1 and \
+                ("slice" in y[1] or "[T]" in y[1]):
+            l = pr.len_summary(canon(y[2][0])) or pr.lin(("len", canon(y[2][0])))
+            if l is not None and pr.prove(_add(_neg(l), ({}, 1)), s.bb):        # 1 - len <= 0
+                return ("D-len", "the slice has at least one element under the dominating guards")
         # constructors that cannot fail for constant arguments
         if y[0] == "call" and isinstance(y[1], str):
             last = y[1].rsplit("::", 1)[-1]
